@@ -5,6 +5,7 @@ import (
 	"fmt"
 	"strings"
 	"time"
+	"verif/engine/deephash"
 	"verif/mcbor"
 
 	psatoken "github.com/veraison/psatoken"
@@ -448,6 +449,96 @@ func init() {
 			}, nil
 		}
 	}
+	for _, p := range []int{1, 2} {
+		p := p
+		// what a setter stores belongs to that claims-set: the same call on two objects shares nothing, and decoding a
+		// token with other values into one of them leaves the other exactly as it was ("no other claim changes")
+		Scenarios[fmt.Sprintf("c11.setter-private-storage.p%d", p)] = func() (choice.Scenario, func() any) {
+			ops := setterAlphabet(false)
+			other := *c02Claims()[map[int]int{1: 1, 2: 3}[p]]
+			if p == 1 {
+				other.NoMeas = u64p(2) // a no-measurements flag carrying something other than 1
+			}
+			otherCBOR := mcbor.Encode(wireTree(&other, true))
+			if p == 1 {
+				// wireTree writes the flag as 1: patch the value
+				t, _ := mcbor.DecodeAll(otherCBOR)
+				for i, pr := range t.Pairs {
+					if k, _ := pr[0].Int(); k == -75007 {
+						t.Pairs[i][1] = mcbor.U(2)
+					}
+				}
+				otherCBOR = mcbor.Encode(t)
+			}
+			return func(c *choice.Ctx) {
+				oi := c.Choose("op", len(ops))
+				A, e1 := psatoken.NewClaims(canonOf(p))
+				B, e2 := psatoken.NewClaims(canonOf(p))
+				if e1 != nil || e2 != nil {
+					return
+				}
+				if ops[oi].real(A) != nil || ops[oi].real(B) != nil {
+					return
+				}
+				c11stats.StateStr("private-storage" + ops[oi].name)
+				c11stats.Trans.Add(2)
+				sa, sb := deephash.Take(A, snapOpts), deephash.Take(B, snapOpts)
+				if x, y, ov := deephash.Overlap(sa, sb); ov {
+					c.Failf(fmt.Sprintf("C11:setter-shares-storage:P%d:%s", p, ops[oi].name), "after %s on two fresh claims-sets they share memory (%s / %s): a decode into one of them writes into the other", ops[oi].name, x.What, y.What)
+					return // the demonstration below would write into whatever is shared and change later executions
+				}
+				gb, eb := getterVector(B), encObs(B)
+				_ = A.(interface{ UnmarshalCBOR([]byte) error }).UnmarshalCBOR(append([]byte{}, otherCBOR...))
+				if g2, e2 := getterVector(B), encObs(B); g2 != gb || e2 != eb {
+					c.Failf(fmt.Sprintf("C11:other-claims-set-changed:P%d:%s", p, ops[oi].name), "after %s on two claims-sets, decoding a token into one changed the other\n before %s %s\n after  %s %s", ops[oi].name, gb, eb, g2, e2)
+				}
+			}, nil
+		}
+		// the list the claims-set already holds, handed back to the setter after one of its entries was made malformed
+		Scenarios[fmt.Sprintf("c11.held-list.p%d", p)] = func() (choice.Scenario, func() any) {
+			full := *c02Claims()[map[int]int{1: 2, 2: 3}[p]]
+			full.Comps = []*refmodel.Comp{okComp(1, 32), fullComp(2, 48), okComp(3, 64)}
+			return func(c *choice.Ctx) {
+				var cl psatoken.IClaims
+				var err error
+				if c.Choose("start", 2) == 0 {
+					cl, err = buildBySetters(&full)
+				} else {
+					cl, err = psatoken.DecodeClaimsFromCBOR(mcbor.Encode(wireTree(&full, true)))
+				}
+				if err != nil {
+					return
+				}
+				scs, err := cl.GetSoftwareComponents()
+				if err != nil || len(scs) != 3 {
+					return
+				}
+				which := c.Choose("entry", 3)
+				pc, ok := scs[which].(*psatoken.SwComponent)
+				if !ok {
+					return
+				}
+				kind := c.Choose("made-malformed-by", 3)
+				switch kind {
+				case 0:
+					pc.SignerID = nil
+				case 1:
+					short := pat(31, 1)
+					pc.MeasurementValue = &short
+				case 2:
+					pc.MeasurementValue = nil
+				}
+				c11stats.StateStr(fmt.Sprint("held-list", p, c.Choices))
+				c11stats.Trans.Add(1)
+				if cl.SetSoftwareComponents(scs) == nil {
+					c.Failf(fmt.Sprintf("C11:iff:P%d:SetSoftwareComponents(held list with a malformed entry):accepted-but-validation-rejects", p), "the list returned by the getter, entry %d made malformed (kind %d), was accepted by the setter", which, kind)
+				}
+				if cl.Validate() == nil {
+					c.Failf(fmt.Sprintf("C11:complete-but-invalid:P%d:held-list-accepted-by-validation", p), "Validate() accepts the claims-set holding the malformed entry")
+				}
+			}, nil
+		}
+	}
 	// software component setters
 	Scenarios["c11.component"] = func() (choice.Scenario, func() any) {
 		return func(c *choice.Ctx) {
@@ -518,6 +609,10 @@ func init() {
 			exploreChoice(r, fmt.Sprintf("c11.single.p%d", p), -1, dl)
 		}
 		exploreChoice(r, "c11.component", -1, dl)
+		for _, p := range []int{1, 2} {
+			exploreChoiceOpts(r, fmt.Sprintf("c11.setter-private-storage.p%d", p), -1, dl, 1)
+			exploreChoice(r, fmt.Sprintf("c11.held-list.p%d", p), -1, dl)
+		}
 		c11stats.Publish(r)
 		depth := 5
 		if thorough(r) {
